@@ -1,7 +1,8 @@
 #!/bin/sh
 # usage: tools/cleansweep.sh <tier> <seed>...   — every check on the unchanged tree for several VERIF_SEED values;
 # prints one line per (check, seed) that did not exit 0 or printed a VIOLATION line (nothing = all quiet)
-cd /verif || exit 2
+cd "$(dirname "$0")/.." || exit 2
+[ -x lean/.lake/build/bin/skadriver ] || (cd lean && lake build >/dev/null 2>&1)
 TIER=$1; shift
 for S in "$@"; do
   for C in C01 C02 C03 C04 C05 C06 C07 C08 C09 C10 C11 C12 C13 C14 C15 C16 C17 C18 C19 C20; do
